@@ -8,13 +8,14 @@ from props.replays import generic_replay
 LEVEL = "proof"
 M = "pyrtcm.rtcmmessage.RTCMMessage"
 TRUSTED = []
-ASSUMPTIONS = ["main clause (no attribute from bits outside the payload) is proved; the 'in particular' clause (a complete message cut "
-               "by whole bytes is rejected) additionally needs prefix determinism of the walk, which is ARGUED from the proved leaf "
-               "contracts (value and failure depend on the payload only through the field's own bits and through offset+width <= L) and "
-               "backed by a BOUNDED stand-in: every truncation length of generated complete messages of every defined type"]
-ARGUED = ["prefix determinism: if two payloads agree on the first L' bits and the walk succeeds on the shorter one, it succeeds on the "
-          "longer one with the same attributes and the same final offset <= L'; hence a payload whose layout ends at bit E > L' cannot "
-          "parse when cut to L' bits"]
+ASSUMPTIONS = ["truncation corollary: prefix determinism of the reference interpreter R is proved per concrete table node (T1/T2 in "
+               "spec/prefix.py: structural + Iter induction over the abstract message state, ~3 800 obligations) from three leaf axioms "
+               "(LA, GA, BA); LA/BA are discharged on the leaf SPECIFICATION for every plain field signature (value is a function of its "
+               "own bits, failure iff offset+width > L); for the derived fields and DF396/IDF038, which additionally read attributes or "
+               "maps, they hold because Pre equates those - argued, not discharged; the relation Pre itself is uninterpreted",
+               "the bounded truncation sweep is kept as an independent cross-check (labelled bounded)"]
+ARGUED = ["linking R to the code: the walk contracts (L2/L3) state code = R; the leaf contract (L1) states code = leaf spec",
+          "leaf axioms for PRN/CELLPRN/CELLSIG/DF396/IDF038 (see assumptions)"]
 EXPLANATION = ("L1: for every data field, a normal return implies offset + width <= 8*len(payload) and the value is built from payload "
                "bits below that bound; a field that does not fit raises; L2/L3: the walk and the constructor propagate the failure as the "
                "library's RTCMTypeError; __init__ fixes _payblen = 8*len and _payloadi = int of exactly the payload.")
@@ -25,6 +26,13 @@ def units(tier):
     us += func_units(M + "._set_attribute_single", tier)
     for q in ("_set_attribute", "_set_attribute_group", "_set_attribute_optional", "_do_attributes", "__init__"):
         us += func_units(f"{M}.{q}", tier)
+    # truncation corollary: prefix determinism of the layout interpreter, per concrete table node (spec/prefix.py)
+    from props.common import lemma_unit
+    from spec import prefix
+    for c in range(16):
+        us.append(lemma_unit(f"prefix.determinism.chunk{c}", (lambda c=c: prefix.all_obligations(c, 16))))
+    us.append(lemma_unit("prefix.leaf_axioms_on_leaf_spec", prefix.leaf_axiom_checks))
+    us.append(lemma_unit("prefix.truncation_corollary", prefix.corollary))
     return us
 
 
